@@ -189,6 +189,14 @@ func (l *_LexerStateMachine) PushRune(r rune) int {
 	// Move 'i' to the beginning of the actions section.
 	i += gotoN * 3
 
+	// A rule never matches the empty string. Nothing has been consumed in the
+	// start state, so the actions it carries when some rule of the mode can
+	// match nothing (e.g. X = 'a'*) are skipped; otherwise the lexer would
+	// produce empty tokens for ever.
+	if l.state == 0 {
+		i = end
+	}
+
 	for ; i < end; i += 2 {
 		switch mode[i] {
 		case 1: // PushMode
